@@ -233,7 +233,8 @@ Lemma g_score_terms_ext (gi : ginput) (a b : state) :
   g_score_terms gi a = g_score_terms gi b.
 Proof.
   intros Hr Hu.
-  unfold g_score_terms, obj_activation, obj_travel_duration, obj_vehicles_duration.
+  unfold g_score_terms, obj_activation, obj_travel_duration, obj_vehicles_duration,
+    obj_early, obj_late, obj_min_stops, obj_stop_balance.
   rewrite Hr, Hu. reflexivity.
 Qed.
 
@@ -1435,9 +1436,9 @@ End Output.
 Definition e_mat : list (list Z) :=
   [[0;1;1;1;1];[1;0;1;1;1];[1;1;0;1;1];[1;1;1;0;1];[1;1;1;1;0]]%Z.
 Definition e_inp : input :=
-  mkInput [] [mkIStop [(-1)%Z] 0%Z [] None 10%Z []; mkIStop [1%Z] 0%Z [] None 10%Z [];
-              mkIStop [0%Z] 0%Z [] None 7%Z []]
-          [mkIVehicle (Some [1%Z]) [0%Z] 0%Z None None None None None [] 0%Z true true]
+  mkInput [] [mkIStop [(-1)%Z] 0%Z [] None 10%Z [] None 0%Z 0%Z; mkIStop [1%Z] 0%Z [] None 10%Z [] None 0%Z 0%Z;
+              mkIStop [0%Z] 0%Z [] None 7%Z [] None 0%Z 0%Z]
+          [mkIVehicle (Some [1%Z]) [0%Z] 0%Z None None None None None [] 0%Z true true 0%Z 0%Z]
           [mkIUnit [0] []; mkIUnit [1] []; mkIUnit [2] []]
           e_mat e_mat 1 w_opts [].
 Definition e_gi : ginput := mkGInput e_inp [[1; 0]] [[]].
